@@ -102,6 +102,8 @@ class RowSet:
             if isinstance(r, slice) and r == slice(None) and c in (0, 1, 2):
                 return Col(self, c)
             if c in (0, 1, 2) and not isinstance(r, slice):
+                if isinstance(r, int) and r < 0:
+                    r = self.size + r           # NumPy negative index
                 # element of the row at some position r in [0, size): the row of SOME member id
                 ctx.oblige_safe("index-in-bounds", _z3.And(_lift(r) >= 0, _lift(r) < _lift(self.size)))
                 w = ctx.fresh("rowid", "int")
